@@ -569,15 +569,15 @@ def stages(tier):
     from vlib.runner import EnumStage
     return [EnumStage("stop-path", stop_path_cases, run_stop_path,
                       exhaustive={"quick": True, "thorough": True},
-                      budget_s={"quick": 60, "thorough": 60}, workers=6),
+                      budget_s={"quick": 180, "thorough": 60}, workers=6),
             EnumStage("bind-list", bind_list_cases, run_case,
                       exhaustive={"quick": True, "thorough": True},
-                      budget_s={"quick": 60, "thorough": 60}, workers=2),
+                      budget_s={"quick": 180, "thorough": 60}, workers=2),
             EnumStage("slow-client", slow_client_cases, run_slow_client,
                       exhaustive={"quick": True, "thorough": True},
-                      budget_s={"quick": 90, "thorough": 90}, workers=3),
+                      budget_s={"quick": 270, "thorough": 90}, workers=3),
             EnumStage("slow-device", stall_cases, run_case,
                       exhaustive={"quick": True, "thorough": True},
-                      budget_s={"quick": 150, "thorough": 150}, workers=3),
+                      budget_s={"quick": 450, "thorough": 150}, workers=3),
             HypStage("schedules", lambda t: cases(t), run_case, {"quick": 6, "thorough": 150},
-                     budget_s={"quick": 90, "thorough": 1500}, shrink=False)]
+                     budget_s={"quick": 270, "thorough": 1500}, shrink=False)]
